@@ -57,6 +57,17 @@ LEVEL_TEXT = 'static rule instances over type-checked MIR (abstract interpretati
 
 
 def run_task(task):
+    try:
+        return run_task_(task)
+    except BaseException as e:   # a crash of the checker (even at import time) is never a pass and never a silent exit
+        import traceback
+        pid, tier, repo, workdir, modname, sub = task
+        ctx = core.Ctx(repo, tier, workdir)
+        ctx.unanalysable(modname.upper()[:3] + '.X', '%s/%s/checker-crash' % (pid, modname), detail={'reason': repr(e)[:300], 'trace': traceback.format_exc()[-1500:]})
+        return ctx.instances, ctx.stats, ctx.assumptions, ctx.samples
+
+
+def run_task_(task):
     pid, tier, repo, workdir, modname, sub = task
     ctx = core.Ctx(repo, tier, workdir)
     mod = importlib.import_module('smtlint.rules.' + modname)
@@ -65,6 +76,9 @@ def run_task(task):
     core.guarded(ctx, pid + '.' + modname, '%s/%s/module' % (pid, label), mod.run, *args)
     if tier == 'thorough' and hasattr(mod, 'run_thorough') and sub in (None, getattr(mod, 'SUBTASKS', [None])[0]):
         core.guarded(ctx, pid + '.' + modname, '%s/%s/module-thorough' % (pid, label), mod.run_thorough)
+    if sub in (None, getattr(mod, 'SUBTASKS', [None])[0]):
+        from .rules import helpers
+        helpers.run_group(ctx, modname)
     core.guarded(ctx, modname.upper()[:3] + '.G1', '%s/%s/early-exits' % (pid, label), core.check_early_exits, modname)
     return ctx.instances, ctx.stats, ctx.assumptions, ctx.samples
 
